@@ -335,6 +335,27 @@ def _hi(p, fi):
 
 def check(ctx):
     repo = ctx.repo
+    # Round 8: at() / shift() / aligned() keep their documented reference points (a position relative to
+    # the innermost packet does not depend on what stands before the packet): C10 modifiers;
+    # every stored value is decoded from exactly the bytes of its field, however many follow: the
+    # strict-decode rule of C04 (a decoder that takes "what is there" depends on what follows)
+    from .c10 import check_modifiers
+    try:
+        check_modifiers(ctx)
+    except Undecided as e:
+        ctx.undecided('R8-modifiers', ('bisturi/field.py', 'Field'), 'modifiers', str(e), 0)
+    from ..model import strategy_variants
+    from .c04 import check_strategy_strict
+    for ci_, fi_, s_, parked_ in strategy_variants(repo, 'unpack'):
+        try:
+            check_strategy_strict(ctx, ci_, fi_, s_, parked_, rule='R14-decodes-its-own-bytes')
+        except Undecided as e:
+            ctx.undecided('R14-decodes-its-own-bytes', fi_, fi_.qual, str(e), fi_.node.lineno)
+    from .c05 import check_codecs
+    try:
+        check_codecs(ctx, repo.cls('Int'))
+    except Undecided as e:
+        ctx.undecided('R1-int-codec', ('bisturi/field.py', 'Int'), 'Int codecs', str(e), 0)
     check_file_backed_raw(ctx)
     from .c03 import check_driver_holes
     check_driver_holes(ctx, rule='R14-raw-relative-to-cursor')
